@@ -304,13 +304,15 @@ class Rot:
     def slerp(cls, q0, q1, amount=0.5):
         """Shortest-arc interpolation.  Supported for yaw-only pairs (angle mode or exact yaw rotations
         taken to angle mode through atan2 of their rational matrix)."""
+        if q0.q is not None and q1.q is not None:
+            a, b = q0.q, q1.q
+            dot = sum(x * y for x, y in zip(a, b))
+            if dot * dot == sum(x * x for x in a) * sum(y * y for y in b):  # parallel quaternions: one rotation
+                return Rot(*b)
         if q0.q is not None and q1.q is not None and any(v != 0 for v in (q0.q[1], q0.q[2], q1.q[1], q1.q[2])):
             # general 3-D rotations: exact only where the result is one of the end points
             a, b = q0.q, q1.q
             dot = sum(x * y for x, y in zip(a, b))
-            same = dot * dot == sum(x * x for x in a) * sum(y * y for y in b)  # parallel quaternions: one rotation
-            if same:
-                return Rot(*b)
             if not symx.is_sym(amount) and amount in (0, 1):
                 return Rot(*b) if amount == 1 else Rot(*[(-v if dot < 0 else v) for v in a])
             raise NotImplementedError("slerp between two distinct 3-D rotations is outside the exact rotation set")
